@@ -1,4 +1,5 @@
 import LabtechModel.Proofs.ParamsCache
+import LabtechModel.Proofs.DumpsInj
 /-!
 # C07 — Cache keys are deterministic and distinguish every distinct task
 
@@ -168,5 +169,113 @@ example : wfTask exBox = true ∧ wfTask exLeaf1 = true ∧ wfTask exLeafTrue = 
 example : cacheKeyPre exLeaf1 = "{\"_is_task\": true, \"__class__\": \"ptasks.Leaf\", \"x\": 1}" := by decide
 example : cacheKeyPre exLeaf1 ≠ cacheKeyPre exLeafTrue ∧ cacheKeyPre exLeaf1 ≠ cacheKeyPre exLeaf2 := by decide
 example : ∀ c ∈ "Experiment".toList, keyCharOk c = true := by decide
+
+end Lt.Params.C07
+
+/-! ## `json.dumps` injectivity: proved, no longer assumed
+
+`Proofs/DumpsInj.lean` (+ `DumpsInjNum.lean`, `DumpsInjStr.lean`) proves that the model's `json.dumps`
+(`dumps`: default arguments, `ensure_ascii=True`, separators `", "` / `": "`) is injective on every
+document whose `.float` leaves carry a float token (`Json.wfTokens`; `wfFloatTok` is a decidable
+grammar that accepts every token `float.__repr__` / `NaN` / `Infinity` / `-Infinity`).  The model's
+`.float` holds the token *text*, so this is a well-formedness condition of the model's inputs, not a
+restriction on Python floats; without it the statement is false in the model (`dumps_needs_wfTokens`).
+Strings are unrestricted: every Lean `String` is a sequence of Unicode scalar values.  That IS a
+restriction with respect to Python strs, which may hold lone surrogates, and there injectivity really
+fails (a high + a low surrogate print like the astral character they spell) — KNOWN FINDING F07c.
+
+Below, the theorems of this file that assumed `hdumps`, restated with that assumption replaced by the
+decidable `Task.wfFloats`; SHA-1 collision-freeness on the two pre-images (`hsha`) is the one named
+assumption that remains. -/
+namespace Lt.Params.C07
+open Lt.Params
+
+/-- `json.dumps` is injective: two documents (any strings, any depth, any lengths, objects as
+association lists with their order and repetitions) whose float leaves carry float tokens and that
+print the same text are the same document -/
+theorem dumps_injective_proved (a b : Json) (wa : a.wfTokens = true) (wb : b.wfTokens = true)
+    (h : dumps a = dumps b) : a = b :=
+  dumps_injective a b wa wb h
+
+/-- a task whose float parameters carry float tokens serialises to a document with float tokens -/
+theorem wfFloats_wfTokens (t : Task) (h : t.wfFloats = true) : (serTask t).wfTokens = true :=
+  serTask_wfTokens t h
+
+/-- the `hdumps` hypothesis of `cacheKey_injective_partial` holds for any two such tasks -/
+theorem hdumps_proved (t u : Task) (ft : t.wfFloats = true) (fu : u.wfFloats = true) :
+    dumps (serTask t) = dumps (serTask u) → serTask t = serTask u :=
+  serTask_dumps_injective t u ft fu
+
+/-- WITNESS that `wfTokens` is needed in the model: an ill-formed "float token" containing a
+delimiter prints like two array elements.  No Python float prints such a token. -/
+theorem dumps_needs_wfTokens :
+    Json.arr [.float "1, 2"] ≠ Json.arr [.int 1, .int 2] ∧
+    dumps (.arr [.float "1, 2"]) = dumps (.arr [.int 1, .int 2]) ∧
+    (Json.arr [.float "1, 2"]).wfTokens = false ∧ (Json.arr [.int 1, .int 2]).wfTokens = true :=
+  ⟨dumps_collision_illformed_token.1, dumps_collision_illformed_token.2.1,
+   dumps_collision_illformed_token.2.2, by decide⟩
+
+/-- the sha1 pre-image (the text `cache_key` hashes) determines a well-formed task: its type, every
+parameter at every depth, every scalar's type.  No assumption outside the model. -/
+theorem cacheKeyPre_injective_partial_dumps_proved (t u : Task) (ht : wfTask t = true) (hu : wfTask u = true)
+    (ft : t.wfFloats = true) (fu : u.wfFloats = true) (h : cacheKeyPre t = cacheKeyPre u) : t = u :=
+  serTask_injective t u ht hu (serTask_dumps_injective t u ft fu h)
+
+/-
+Full statement: distinct tasks get distinct keys.  False without `wfTask` (F07); `hsha` (no SHA-1
+collision on the two pre-images) is a fact outside the model.  `ft` / `fu` only say that the model's
+float leaves hold float tokens.
+-/
+/-- `cacheKey_injective_partial` with the `json.dumps` assumption proved: distinct well-formed tasks
+get distinct keys, up to a SHA-1 collision on their two pre-images (`hsha`) -/
+theorem cacheKey_injective_partial_dumps_proved (sha1 : String → String)
+    (hlen : ∀ x, (sha1 x).toList.length = 40)
+    (fmt : CacheFmt) (h : fmt.isNull = false) (t u : Task) (ht : wfTask t = true) (hu : wfTask u = true)
+    (ft : t.wfFloats = true) (fu : u.wfFloats = true)
+    (hsha : sha1 (cacheKeyPre t) = sha1 (cacheKeyPre u) → cacheKeyPre t = cacheKeyPre u)
+    (hk : cacheKey sha1 fmt t = cacheKey sha1 fmt u) : t = u :=
+  cacheKey_injective_partial sha1 hlen fmt h t u ht hu hsha (serTask_dumps_injective t u ft fu) hk
+
+/-- the same, read as the property states it: two distinct tasks never share a key -/
+theorem distinct_tasks_distinct_keys_partial_dumps_proved (sha1 : String → String)
+    (hlen : ∀ x, (sha1 x).toList.length = 40)
+    (fmt : CacheFmt) (h : fmt.isNull = false) (t u : Task) (ht : wfTask t = true) (hu : wfTask u = true)
+    (ft : t.wfFloats = true) (fu : u.wfFloats = true)
+    (hsha : sha1 (cacheKeyPre t) = sha1 (cacheKeyPre u) → cacheKeyPre t = cacheKeyPre u)
+    (hne : t ≠ u) : cacheKey sha1 fmt t ≠ cacheKey sha1 fmt u :=
+  fun hk => hne (cacheKey_injective_partial_dumps_proved sha1 hlen fmt h t u ht hu ft fu hsha hk)
+
+/-! non-vacuity -/
+
+example : wfFloatTok "1.5" = true ∧ wfFloatTok "-0.0" = true ∧ wfFloatTok "1e+16" = true ∧
+    wfFloatTok "1.7976931348623157e+308" = true ∧ wfFloatTok "NaN" = true ∧
+    wfFloatTok "-Infinity" = true ∧ wfFloatTok "5e-324" = true := by decide
+example : wfFloatTok "15" = false ∧ wfFloatTok "" = false ∧ wfFloatTok "1,2" = false := by decide
+
+/-- the earlier examples of this file have well-formed floats (`exBox` holds the float `1.0`) -/
+example : exBox.wfFloats = true ∧ exLeaf1.wfFloats = true ∧ (serTask exBox).wfTokens = true := by decide
+
+/-- two tasks of one type that differ in one float parameter, `Leaf(x=1.5)` and `Leaf(x=1e+16)` -/
+def exF1 : Task := .mk ⟨"ptasks", "Leaf"⟩ [("x", .scalar (.float "1.5"))]
+def exF2 : Task := .mk ⟨"ptasks", "Leaf"⟩ [("x", .scalar (.float "1e+16"))]
+
+/-- a stand-in digest: 40 characters, determined by the length of the input modulo 41 -/
+def exSha (s : String) : String :=
+  String.ofList (List.replicate (s.length % 41) 'a' ++ List.replicate (40 - s.length % 41) 'b')
+
+theorem exSha_len (x : String) : (exSha x).toList.length = 40 := by
+  simp only [exSha, String.toList_ofList, List.length_append, List.length_replicate]
+  have : x.length % 41 < 41 := Nat.mod_lt _ (by decide)
+  omega
+
+example : wfTask exF1 = true ∧ wfTask exF2 = true ∧ exF1.wfFloats = true ∧ exF2.wfFloats = true := by decide
+example : cacheKeyPre exF1 = "{\"_is_task\": true, \"__class__\": \"ptasks.Leaf\", \"x\": 1.5}" := by decide
+
+/-- a concrete two-task instance of `distinct_tasks_distinct_keys_partial_dumps_proved`: every
+hypothesis holds (the stand-in digest does not collide on the two pre-images), so the keys differ -/
+example : cacheKey exSha ⟨"PickleCache", "pickle__", false⟩ exF1 ≠
+    cacheKey exSha ⟨"PickleCache", "pickle__", false⟩ exF2 :=
+  distinct_tasks_distinct_keys_partial_dumps_proved exSha exSha_len _ rfl exF1 exF2 (by decide) (by decide)
+    (by decide) (by decide) (by decide) (by simp [exF1, exF2])
 
 end Lt.Params.C07
